@@ -10,7 +10,8 @@ THEOREMS = [(M, "NQ.C16." + n) for n in [
     "inRangeOp_false_of_bad", "bad_of_inRangeOp_false", "encode_rejects", "encode_rejects_arity",
     "encodeInstr_rejects", "encodeSub_rejects", "encoded_never_decodes_differently",
     "sub_never_decodes_differently", "nv_never_differs", "reids_never_differs",
-    "vanilla_never_differs_partial", "sdk_rotation_rejects", "encodeSubZ_rejects"]]
+    "vanilla_never_differs_partial", "sdk_rotation_rejects", "encodeSubZ_rejects",
+    "sdk_meas_basis_rejects", "sdk_breakpoint_rejects"]]
 TRANSLATORS = ["instr_table"]
 LEVEL_TEXT = ('Lean theorems: for every instruction class (any table, any shape) and every operand list in which '
               'some slot holds a value outside its range (register index not in 0..15 / bank not in 0..3, imm8 not '
@@ -25,7 +26,8 @@ LEVEL_TEXT = ('Lean theorems: for every instruction class (any table, any shape)
               'through direct construction, the text assembler and the SDK.')
 LEVEL_NOTE = ('Trusted: Lean kernel; translator + harness. The text route uses the canonical rendering written '
               'by the harness (the parser itself is the subject of C17); the SDK route covers rot_X/Y/Z, '
-              'measure(basis_rotations) and app ids. The vanilla opcode clash (in-range meas_basis decodes as '
+              'measure(basis_rotations / named bases) on vanilla and NV, insert_breakpoint (enum and raw values) '
+              'and app ids. The vanilla opcode clash (in-range meas_basis decodes as '
               'mov) is finding F1 of C01 and involves no out-of-range operand; it is counted, not judged, here.')
 TECHNIQUE = ('Lean 4 proof (case analysis over operand kinds, induction over operand and instruction lists) + '
              'kernel-decided generated obligations + differential correspondence over three entry routes')
@@ -210,25 +212,66 @@ def run(ctx):
             res.samples.append({"route": "sdk", "fl": fname, "hw": hw, "call": f"{meth}(n={n}, d={d})",
                                 "raises": exc, "model": m.get("b")})
     # measurement bases and app ids through the SDK
-    rots = [(0, 0, 0), (255, 255, 255), (256, 0, 0), (0, 256, 0), (0, 0, 256), (1, 300, 3), (-1, 0, 0),
-            (10 ** 20, 1, 1), (8, 24, 31)]
-    mb = ctx.driver.batch([{"op": "reject.sdkmeas", "fl": "vanilla", "a": [0, 0, a, b, c]} for a, b, c in rots])
-    for (a, b, c), m in zip(rots, mb):
+    vals8 = [0, 1, 24, 255, 256, 257, 300, 65536 + 3, 10 ** 20, -1, -256]
+    rots = [(0, 0, 0), (255, 255, 255), (8, 24, 31)]
+    for pos in range(3):
+        for v in vals8:
+            r = [rng.choice([0, 8, 255]) for _ in range(3)]
+            r[pos] = v
+            rots.append(tuple(r))
+    for _ in range(60 if thorough else 10):
+        rots.append(tuple(rng.choice(vals8 + [rng.randrange(256)]) for _ in range(3)))
+    meas_cases = [(fname, nv, r) for fname, nv in (("vanilla", False), ("nv", True)) for r in rots]
+    mb = ctx.driver.batch([{"op": "reject.sdkmeas", "fl": f, "a": [0, 0, a, b, c]} for f, _, (a, b, c) in meas_cases])
+    for (fname, nv, (a, b, c)), m in zip(meas_cases, mb):
         res.evaluations += 1
-        subs, exc = R.run_sdk(lambda cn, q: q.measure(basis_rotations=(a, b, c)))
+        subs, exc = R.run_sdk(lambda cn, q: q.measure(basis_rotations=(a, b, c)), nv)
         got = None
         if subs is not None:
             cmds = R.commands_with_opcode(subs, 41)
             got = cmds[0] if len(cmds) == 1 else {"unexpected": cmds}
         bad = not all(0 <= v <= 255 for v in (a, b, c))
         if bad:
-            res.nontrivial.add(("sdk-meas", a, b, c))
+            res.nontrivial.add(("sdk-meas", fname, a, b, c))
         res.count(f"sdk-meas:{'rejected' if got is None else 'encoded'}")
         if got != m.get("b"):
-            res.disagreements.append({"stream": "reject.sdkmeas", "input": [a, b, c, exc],
+            res.disagreements.append({"stream": "reject.sdkmeas", "input": [fname, a, b, c, exc],
                                       "model": m.get("b"), "code": got})
         if got is not None and (bad or got[3:7] != [a, b, c, 4]):
-            _mk(res, "SDK measurement basis altered", {"rotations": [a, b, c], "bytes": got})
+            _mk(res, "SDK measurement basis altered", {"fl": fname, "rotations": [a, b, c], "bytes": got})
+    # the named bases X / Y are emitted as meas_basis with fixed immediates
+    from netqasm.sdk.qubit import QubitMeasureBasis
+    for basis, want in ((QubitMeasureBasis.X, [0, 24, 0, 4]), (QubitMeasureBasis.Y, [8, 0, 0, 4])):
+        res.evaluations += 1
+        subs, exc = R.run_sdk(lambda cn, q: q.measure(basis=basis))
+        cmds = R.commands_with_opcode(subs, 41) if subs is not None else None
+        res.count("sdk-meas-named")
+        if not cmds or len(cmds) != 1 or cmds[0][3:7] != want:
+            _mk(res, "SDK named measurement basis altered", {"basis": str(basis), "commands": cmds, "exc": exc})
+    # breakpoints: the two immediates are `action.value`, `role.value`
+    import types
+    from netqasm.lang.ir import BreakpointAction, BreakpointRole
+    brk = [(a, r, True) for a in BreakpointAction for r in BreakpointRole]
+    for v in vals8:
+        brk.append((types.SimpleNamespace(value=v), BreakpointRole.CREATE, False))
+        brk.append((BreakpointAction.NOP, types.SimpleNamespace(value=v), False))
+    bm = ctx.driver.batch([{"op": "reject.sdkbrk", "fl": "vanilla", "a": [a.value, r.value]} for a, r, _ in brk])
+    for (a, r, is_enum), m in zip(brk, bm):
+        res.evaluations += 1
+        subs, exc = R.run_sdk(lambda cn, q: cn.insert_breakpoint(a, r))
+        got = None
+        if subs is not None:
+            cmds = R.commands_with_opcode(subs, 100)
+            got = cmds[0] if len(cmds) == 1 else {"unexpected": cmds}
+        bad = not (0 <= a.value <= 255 and 0 <= r.value <= 255)
+        if bad:
+            res.nontrivial.add(("sdk-brk", a.value, r.value))
+        res.count(f"sdk-breakpoint:{'rejected' if got is None else 'encoded'}")
+        if got != m.get("b"):
+            res.disagreements.append({"stream": "reject.sdkbrk", "input": [a.value, r.value, exc],
+                                      "model": m.get("b"), "code": got})
+        if got is not None and (bad or got[1:3] != [a.value, r.value]):
+            _mk(res, "SDK breakpoint immediates altered", {"action": a.value, "role": r.value, "bytes": got})
     for app in [0, 65535, 65536, 70000, 2 ** 32 + 1]:
         res.evaluations += 1
         subs, exc = R.run_sdk(lambda cn, q: q.H(), app_id=app)
